@@ -45,6 +45,7 @@ func genOpt(nonZeroOpen bool) func(t *rapid.T, thorough bool) OptCase {
 		default:
 			c.M = genMatSpec(t, matOpts{openLo: 0, openHi: 0, gapLo: -6, gapHi: 3})
 		}
+		c.Mutate = genMatMutation(t, c.M)
 		letters := c.M.letters()
 		c.A = genSeqOver(t, letters, maxLen, "a")
 		if rapid.Bool().Draw(t, "related") {
@@ -114,6 +115,20 @@ func checkOptimal(c OptCase, o *Obs, wantNonZeroOpen bool) error {
 	if wantNonZeroOpen != (open != 0) {
 		return nil // case outside this property's domain (malformed replay)
 	}
+	if err := optimalOnce(c, o, m, rm, wantNonZeroOpen); err != nil {
+		return err
+	}
+	if applyMutation(c.AlignCase, m, rm) {
+		o.Class("matrix changed in place between calls")
+		if err := optimalOnce(c, o, m, rm, wantNonZeroOpen); err != nil {
+			return fmt.Errorf("after changing a score of the same matrix in place (%+v): %w", *c.Mutate, err)
+		}
+	}
+	return nil
+}
+
+// optimalOnce runs one alignment call and compares it with the reference optimum.
+func optimalOnce(c OptCase, o *Obs, m align.SubstitutionMatrix, rm ref.Matrix, wantNonZeroOpen bool) error {
 	res, err := runAlign(c.AlignCase, m)
 	if err != nil {
 		return err
